@@ -22,7 +22,8 @@ EXPLANATION = (
     "same histogram, md_map recurses into lists only (tuples are cells) and IterateBins yields once per item of "
     "iter_bins_with_edges(data.bins, data.edges); (e) the classes of the fill chain bind their protocol attributes to bound methods, "
     "never to closures (deepcopy copies functions by reference).  compute()'s freshness is covered by C04.  Does not decide equality "
-    "with an independent per-cell run nor which cell a border value belongs to.")
+    "with an independent per-cell run nor which cell a border value belongs to."    " Added after the eighth round of seeded changes and the second round of behaviour-preserving changes: (g) the dictionary MapBins.run hands to update_nested to be modified is a deep copy or a display, never the context object of a produced cell."
+)
 RULES = {
     "C11-g": "CELLS UNTOUCHED: the context MapBins nests under context.value (the argument that update_nested modifies) is a deep copy, "
              "never the context object of a produced cell -- with drop_bins_context=False that object stays in the yielded histogram",
